@@ -331,6 +331,9 @@ JOIN_READERS = {
 }
 
 
+POLL = r"Future::poll$|FutureExt::poll_unpin$"
+
+
 def r4_shared_result(ctx):
     R = ctx.rule("C17.R4", "one shared result: join_future is a futures::Shared built once; every reader only clones, polls or queries it", floor=10)
     a = ctx.ds.adts.get("server::HttpServer")
@@ -355,11 +358,13 @@ def r4_shared_result(ctx):
         not [c for c, b, t in r0.callees if not re.search(r"clone::Clone::clone$", c)]
     ctx.check(R, "wait_for_shutdown-clones", ok, "wait_for_shutdown returns ShutdownWaitFuture(self.join_future.clone()): %s" % ok, wf)
     pf = ctx.need_fn(ctx.ds, R, r"^<server::HttpServer<C> as [\w:]*Future>::poll$")
-    polls = [(b, t) for b, t in pf.live_calls(r"Future::poll$") if pf.slice(t["args"][0]).reads_field("join_future")]
+    # `Pin::new(&mut x).poll(cx)` and `x.poll_unpin(cx)` (FutureExt: exactly that, for an Unpin future) are the same poll
+    polls = [(b, t) for b, t in pf.live_calls(POLL) if pf.slice(t["args"][0]).reads_field("join_future")]
     ok = len(polls) == 1 and polls[0][1]["dest"]["l"] == 0 and pf.must_pass([polls[0][0]])
     ctx.check(R, "server-future-polls-the-shared-result", ok, "Future for HttpServer returns the poll of self.join_future: %s" % ok, pf)
     sf = ctx.need_fn(ctx.ds, R, r"^<server::ShutdownWaitFuture as [\w:]*Future>::poll$")
-    polls = [(b, t) for b, t in sf.live_calls(r"Future::poll$") if "future::Shared" in (t.get("callee_args") or "") + (t.get("resolved") or "")]
+    polls = [(b, t) for b, t in sf.live_calls(POLL) if "future::Shared" in (t.get("callee_args") or "") + (t.get("resolved") or "") + " ".join(t.get("gargs") or []) or
+             (t["args"][0].get("pl") and "future::Shared<" in (sf.local_ty(t["args"][0]["pl"]["l"]) or "") and sf.slice(t["args"][0]).params() == [1])]
     ok = len(polls) == 1 and polls[0][1]["dest"]["l"] == 0 and sf.must_pass([polls[0][0]])
     ctx.check(R, "waiter-polls-the-shared-result", ok, "ShutdownWaitFuture::poll returns the poll of its Shared handle: %s" % ok, sf)
 
